@@ -7,6 +7,7 @@ build_root_metadata, threshold-signed, must verify as successor of the previous 
 own successor.
 """
 import copy
+import json
 import datetime as _dt
 
 import gen
@@ -85,8 +86,18 @@ class BuilderWorld(World):
             run.violate(("C16",), "builder-returned-non-dict", "%s returned %r" % (fn, type(md)))
             return False
         # carried verbatim
+        def same(a, b):
+            if typed_eq(a, b):
+                return True
+            # a str subclass / (str, Enum) member given as the type: carried verbatim = equal to it and written to JSON as the same string
+            if isinstance(a, str) and isinstance(b, str) and (type(a) is not str or type(b) is not str):
+                try:
+                    return a == b and json.dumps(a) == json.dumps(b)
+                except (TypeError, ValueError):
+                    return False
+            return False
         for k in ("type", "version", "delegations", "timestamp", "expiration"):
-            if k in given and not typed_eq(md.get(k), given[k]):
+            if k in given and not same(md.get(k), given[k]):
                 run.violate(("C16",), "builder-not-faithful", "%s: field %r is %r, given %r" % (fn, k, md.get(k), given[k]),
                             "builder-not-faithful:" + k)
                 return False
@@ -161,7 +172,17 @@ class BuilderWorld(World):
             kw["root_timestamp"] = given["timestamp"] = op["ts"]
         if op.get("exp") is not None:
             kw["root_expiration"] = given["expiration"] = op["exp"]
-        plain = not op.get("corrupt")
+        if op.get("dup_cross") and rk and mk and not op.get("corrupt"):
+            # one list names a key twice - a key the *other* role lists too (root = [K1, K2], key_mgr = [K1, K3, K1])
+            which = 3 if op["dup_cross"] == "km" else 1
+            src = rk if which == 3 else mk
+            lst = list(args[which])
+            lst = [src[0]] + [x for x in lst if x != src[0]] + [src[0]]
+            args[which] = lst
+            given = {"type": "root"}
+            op = dict(op, dup_cross_applied=True)
+            self.run.fault("operator_error_duplicate_key_across_roles")
+        plain = not op.get("corrupt") and not op.get("dup_cross_applied")
         if op.get("corrupt"):
             pos, val = op["corrupt"]
             self.run.fault("operator_error_argument_corrupted")
@@ -190,6 +211,9 @@ class BuilderWorld(World):
                 d["threshold"] = 0
             elif how == "dupkeys":
                 d["pubkeys"] = [hx, hx]
+            elif how == "dupcross":
+                other = next((dd["pubkeys"][0] for rr, dd in dels.items() if rr != r and dd.get("pubkeys")), hx)
+                d["pubkeys"] = [other] + [x for x in d.get("pubkeys", []) if x != other] + [other]
             elif how == "nokeys":
                 del d["pubkeys"]
             elif how == "extra":
@@ -200,7 +224,15 @@ class BuilderWorld(World):
                 d["threshold"] = "1"
             must_reject = True
             self.run.fault("operator_error_malformed_delegation")
-        args = [op["type"]]
+        mtype = op["type"]
+        if op.get("type_as") and isinstance(mtype, str):
+            import enum
+            if op["type_as"] == "str_enum":
+                mtype = enum.Enum("Role", {"MEMBER": mtype}, type=str).MEMBER        # class Role(str, Enum): equal to, hashes like and serializes as the plain string
+            elif op["type_as"] == "str_sub":
+                mtype = type("RoleName", (str,), {})(mtype)
+            self.run.probe("metadata_type_as_" + op["type_as"])
+        args = [mtype]
         kw = {"delegations": dels, "version": op["version"]}
         given = {"type": op["type"], "version": op["version"], "delegations": dels}
         if op.get("nodels"):
@@ -238,6 +270,10 @@ class BuilderWorld(World):
                 and c[1] is not None and self._time_definitely_invalid(c[1]):
             run.violate(("C16",), "builder-accepted-invalid-time", "%s returned metadata for a timestamp / expiration argument %r that neither the "
                         "documented format nor the standard parser admits" % (fn, c[1]), "builder-accepted-invalid-time")
+            return
+        if o.ok and op.get("dup_cross_applied") and fn == "build_root_metadata":
+            run.violate(("C16",), "builder-accepted-non-keys", "build_root_metadata returned metadata for a role whose key list names one key twice "
+                        "(a key that another role lists as well)", "builder-accepted-non-keys")
             return
         if o.ok and c and fn == "build_root_metadata" and c[0] in (1, 3):
             from refmodel import keylist_ok
@@ -309,6 +345,9 @@ class BuilderWorld(World):
             idx = sorted(rng.sample(range(nk), rng.randint(0, 3)))
             op = {"op": "build_root", "version": rng.choice([1, 2, 7, 2**40]), "root": idx, "t": rng.randint(1, max(1, len(idx)) + 1),
                   "km": sorted(rng.sample(range(nk), rng.randint(0, 2))), "km_t": rng.choice([1, 2]), "jumps": jumps, "dt": dt, "valid": True}
+            if rng.random() < 0.08 and op["root"] and op["km"]:
+                op["dup_cross"] = rng.choice(["km", "root"])
+                op["valid"] = False
             if rng.random() < 0.35:
                 op["ts"] = rng.choice(["2021-03-04T05:06:07Z", "2024-02-29T23:59:59Z", "1970-01-01T00:00:00Z", "9999-12-31T23:59:59Z"])
             if rng.random() < 0.3:
@@ -329,8 +368,10 @@ class BuilderWorld(World):
             bad_role = rng.choice(roles)       # one role's delegation is malformed: the builder must answer with an argument error
         op = {"op": "build_deleg", "type": rng.choice(["key_mgr", "root", "pkg_mgr", "anything", ""]), "dels": dels,
               "version": rng.choice([1, 3, 10**12]), "jumps": jumps, "dt": dt, "valid": True, "nodels": rng.random() < 0.15}
+        if rng.random() < 0.08:
+            op["type_as"] = rng.choice(["str_enum", "str_enum", "str_sub"])
         if bad_role is not None:
-            op["bad_role"] = [bad_role, rng.choice(["threshold0", "dupkeys", "nokeys", "extra", "upper", "strthreshold"])]
+            op["bad_role"] = [bad_role, rng.choice(["threshold0", "dupkeys", "dupcross", "dupcross", "nokeys", "extra", "upper", "strthreshold"])]
             op["valid"] = False
             op["nodels"] = False
         if rng.random() < 0.35:
